@@ -130,7 +130,15 @@ func (s *Service) ScheduleJob(ctx context.Context,
 		case <-time.After(time.Until(runtime)):
 			// It is possible that the job is already active, so check that first before proceeding.
 			if job.active.Load() {
-				s.log.Trace().Str("job", name).Time("scheduled", runtime).Msg("Already running; job not running")
+				// The job has been claimed by RunJob(), which sends the run signal straight after
+				// marking the job active; honour that signal rather than dropping the job.
+				s.log.Trace().Str("job", name).Time("scheduled", runtime).Msg("Already claimed by run request; job running")
+				<-job.runCh
+				monitorJobStartedOnSignal(class)
+				jobFunc(ctx)
+				s.log.Trace().Str("job", name).Time("scheduled", runtime).Msg("Job complete")
+				finaliseJob(job)
+				job.active.Store(false)
 				break
 			}
 			s.jobsMutex.Lock()
